@@ -53,6 +53,7 @@ var pathExpr = map[string]string{
 	"gi": "victim.GI",
 	"getStrs": "victim.GetStrs()", "gstr": "victim.GStr", "getFloats": "victim.GetFloats()", "gfl": "victim.GFl",
 	"getScores": "victim.GetScores()", "gscores": "victim.GScores",
+	"getBytes": "victim.GetBytes()", "gbytes": "victim.GBytes", "getRunes": "victim.GetRunes()", "grunes": "victim.GRunes",
 }
 
 var pathTyp = map[string]string{}
@@ -75,12 +76,14 @@ func init() {
 	set("sliceStr", "getStrs", "gstr")
 	set("sliceFl", "getFloats", "gfl")
 	set("namedInts", "getScores", "gscores")
+	set("sliceByte", "getBytes", "gbytes")
+	set("sliceRune", "getRunes", "grunes")
 	set("ctor", "ctor")
 	set("pcur", "pcur")
 }
 
 var typeName = map[string]string{
-	"ptrT": "*victim.T", "valT": "victim.T", "sliceInt": "[]int", "mapSI": "map[string]int", "ptrInt": "*int", "ptrArr": "*[3]int", "ptrBox": "*lib.Box", "intv": "int", "sliceStr": "[]string", "sliceFl": "[]float64", "namedInts": "victim.Scores",
+	"ptrT": "*victim.T", "valT": "victim.T", "sliceInt": "[]int", "mapSI": "map[string]int", "ptrInt": "*int", "ptrArr": "*[3]int", "ptrBox": "*lib.Box", "intv": "int", "sliceStr": "[]string", "sliceFl": "[]float64", "namedInts": "victim.Scores", "sliceByte": "[]byte", "sliceRune": "[]rune",
 }
 
 // write statement(s) on handle expression h with the fresh value v
@@ -114,6 +117,11 @@ func writeStmt(wk, h string, v int) (string, error) {
 		"cvOwnSet": "myInts(@H).Set(0, @V)", "cvOwnSetP": "x := myInts(@H)\nx.SetP(0, @V)", "cvOwnIdx": "myInts(@H)[0] = @V", "cvOwnSort": "sort.Sort(myInts(@H))",
 		"cvOwnMapPut": "myMap(@H).Put(`z`, @V)", "cvOwnMapIdx": "myMap(@H)[`z`] = @V",
 		"cvOwnArrSet": "(*myArr)(@H).Set(0, @V)", "cvOwnTwinSet": "(*myTwin)(@H).SetV(@V)",
+		"byIdx": "@H[0] = 'X'", "byString": "_ = string(@H)", "ruIdx": "@H[0] = 'X'", "ruString": "_ = string(@H)",
+		"cvLibBytesSet": "lib.Bytes(@H).Set(0, 'X')", "cvLibBytesSwap": "lib.Bytes(@H).Swap(0, 1)", "cvLibBytesSetP": "x := lib.Bytes(@H)\nx.SetP(0, 'X')",
+		"cvOwnBytesSet": "myBytes(@H).Set(0, 'X')",
+		"cvLibRunesSet": "lib.Runes(@H).Set(0, 'X')", "cvLibRunesSwap": "lib.Runes(@H).Swap(0, 1)", "cvLibRunesSetP": "x := lib.Runes(@H)\nx.SetP(0, 'X')",
+		"cvOwnRunesSet": "myRunes(@H).Set(0, 'X')",
 		"cvUnnamedIdx": "[]int(@H)[0] = @V", "cvUnnamedSort": "sort.Ints([]int(@H))",
 		// construction of victim-declared types in attacker code (must fail)
 		"cLit": "x := victim.T{N: @V}\n_ = x", "cPtr": "x := &victim.T{N: @V}\n_ = x", "cNew": "x := new(victim.T)\n_ = x",
@@ -188,9 +196,17 @@ type myTwin struct {
 
 func (t *myTwin) SetV(v int) { t.V = v }
 
+type myBytes []byte
+
+func (b myBytes) Set(i int, v byte) { b[i] = v }
+
+type myRunes []rune
+
+func (r myRunes) Set(i int, v rune) { r[i] = v }
+
 `
 
-var reOwn = regexp.MustCompile(`(^|[^A-Za-z0-9_])my(Ints|Map|Arr|Twin)\b`)
+var reOwn = regexp.MustCompile(`(^|[^A-Za-z0-9_])my(Ints|Map|Arr|Twin|Bytes|Runes)\b`)
 var reSort = regexp.MustCompile(`(^|[^A-Za-z0-9_.])sort\.`)
 
 // file assembles a Gno file: package clause, the imports the body actually mentions, body.
